@@ -177,6 +177,10 @@ func runC18(c *core.Ctx) {
 					if st.Static != nil && st.Static != travOf[put] && len(st.A) == 3 && paramOf(st.A[0], put, 0) && paramOf(st.A[1], put, 1) && paramOf(st.A[2], put, 2) {
 						mkFn = st.Static
 					}
+					// a height function of the list: (list) -> int
+					if st.Static != nil && st.Static != travOf[put] && len(st.A) == 1 && paramOf(st.A[0], put, 0) && st.Static.Signature.Results().Len() == 1 && isBasicKind(st.Static.Signature.Results().At(0).Type(), types.Int) {
+						mkFn = st.Static
+					}
 				}
 			}
 			an = c.AnalyzeLoopsExcept(put, travOf[put], mkFn)
@@ -206,24 +210,50 @@ func runC18(c *core.Ctx) {
 				okR, whyR = false, "Put of a new key returns without splicing"
 			}
 		}
+		// the new node and its height: results of a node constructor (rank, node), or a node built in place whose
+		// finger slice is made with a height drawn from a height function of the list
+		var rank, node *ir.Term
+		rankIsHeight := false
+		if mk != nil {
+			rank = &ir.Term{Op: "extract", Aux: "0", Args: []*ir.Term{mk.R}}
+			node = &ir.Term{Op: "extract", Aux: "1", Args: []*ir.Term{mk.R}}
+			rankIsHeight = mkNodeRankIsHeight(c, mk.Static)
+			mkNodeHeightBound(c, ctor, mk.Static)
+		} else {
+			for _, p := range an.AllPaths() {
+				for _, st := range p.Events(ir.KStore) {
+					if st.A[0].Op == "faddr" && st.A[0].Aux == fFingers && st.A[0].Args[0].Op == "alloc" && st.A[1].Op == "mkslice" && len(st.A[1].Args) > 0 {
+						for _, hs := range p.Events(ir.KCall) {
+							if hs.Static != nil && hs.Static != travOf[put] && ir.Same(hs.R, st.A[1].Args[0]) && len(hs.A) >= 1 && paramOf(hs.A[0], put, 0) {
+								node, rank, rankIsHeight = st.A[0].Args[0], st.A[1].Args[0], true
+								mk = hs
+							}
+						}
+					}
+				}
+			}
+			if mk != nil {
+				mkNodeHeightBound(c, ctor, mk.Static)
+			}
+		}
 		if mk == nil {
 			okL, whyL = false, "no node constructor call found"
 		} else {
-			rank := &ir.Term{Op: "extract", Aux: "0", Args: []*ir.Term{mk.R}}
-			node := &ir.Term{Op: "extract", Aux: "1", Args: []*ir.Term{mk.R}}
 			nodeLen := &ir.Term{Op: "len", Args: []*ir.Term{fingersOf(node)}}
-			rankIsHeight := mkNodeRankIsHeight(c, mk.Static)
-			mkNodeHeightBound(c, ctor, mk.Static)
 			for _, h := range an.Headers {
 				l := countedLoop(an, h)
 				// every level of the new node, ascending from 0: trip count len(node.fingers), or the rank the node
 				// constructor returns when that is the length of the finger slice it builds
-				if l == nil || l.Step != 1 || l.Trip == nil || l.Rotated() || !(ir.Same(l.Trip, nodeLen) || ir.Same(l.Trip, rank) && rankIsHeight) {
+				// (the order in which the levels are spliced is not observable: ascending or descending)
+				if l == nil || !(l.Step == 1 || l.Descending) || l.Trip == nil || l.Rotated() || !(ir.Same(l.Trip, nodeLen) || ir.Same(l.Trip, rank) && rankIsHeight) {
 					okL, whyL = false, "the splice loop does not run over levels 0 .. rank-1 of the new node"
+					if l != nil {
+						whyL += fmt.Sprintf(" (trip %s, step %d, op %s; node height %s)", short(l.Trip), l.Step, l.Op, short(rank))
+					}
 					continue
 				}
 				lv := an.Start[h].Reg(l.Phi)
-				if l.RangeOver != nil {
+				if l.RangeOver != nil || l.Op == "range" {
 					lv = l.Index(an)
 				}
 				for _, p := range an.Segs[h] {
@@ -238,6 +268,12 @@ func runC18(c *core.Ctx) {
 					}
 					a0, v0, a1, v1 := st[0].A[0], st[0].A[1], st[1].A[0], st[1].A[1]
 					isNodeFinger := a0.Op == "iaddr" && ir.Same(a0.Args[1], lv) && a0.Args[0].Op == "load" && a0.Args[0].Args[0].Op == "faddr" && a0.Args[0].Args[0].Aux == fFingers && ir.Same(a0.Args[0].Args[0].Args[0], node)
+					if !isNodeFinger && a0.Op == "iaddr" && ir.Same(a0.Args[1], lv) && an.Start[h] != nil {
+						// the node was built on this very path: its finger slice is known to the engine by value
+						if known := an.Start[h].MemAt(&ir.Term{Op: "faddr", Aux: fFingers, Args: []*ir.Term{node}}); known != nil && ir.Same(a0.Args[0], known) {
+							isNodeFinger = true
+						}
+					}
 					isPathFinger := a1.Op == "iaddr" && ir.Same(a1.Args[1], lv) && a1.Args[0].Op == "load" && a1.Args[0].Args[0].Op == "faddr" && a1.Args[0].Args[0].Aux == fFingers
 					readsPath := v0.Op == "load" && ir.Same(v0.Args[0], a1)
 					if !(isNodeFinger && isPathFinger && readsPath && ir.Same(v1, node)) {
@@ -549,7 +585,11 @@ func skipRoles(list *types.Named, ctor *ssa.Function) *skipRoleSet {
 	var node *types.Named
 	for i := 0; i < lst.NumFields(); i++ {
 		f := lst.Field(i)
-		switch t := f.Type().(type) {
+		ft := f.Type()
+		if _, isNamedSlice := ft.Underlying().(*types.Slice); isNamedSlice {
+			ft = ft.Underlying()
+		}
+		switch t := ft.(type) {
 		case *types.Pointer:
 			if n, isN := t.Elem().(*types.Named); isN {
 				if _, isS := n.Underlying().(*types.Struct); isS {
